@@ -320,3 +320,37 @@ fn c08_metadata_block_write() {
     assert!(s.id.len == 32 + 272 && blk.count_bits() == 32 + 272);
     assert!((s.id.w[0] >> 32) as u32 == ((is_last as u32) << 31) | 34);
 }
+
+// ---- Frame::count_bits (closures + iterator sum: outside Verus, cheap for Kani) -------------------
+
+/// `Frame::count_bits()` == header bits + sum of subframe bits, rounded up to a byte, + 16; a whole
+/// number of bytes; with a precomputed bitstream: 8 x its length.  (What `Frame::write` emits is
+/// exactly that many bits: Verus unit frame_write.)
+//@ unit props=C08,C04 tier=quick kind=bounded timeout=600 funcs="<Frame as BitRepr>::count_bits; Frame::add_subframe; Frame::precomputed_bitstream" bound="0, 1 or 2 subframes of arbitrary reported size"
+#[kani::proof]
+#[kani::unwind(12)]
+fn c08_frame_count_bits() {
+    use crate::component::datatype::BlockSizeSpec;
+    use crate::component::datatype::FrameOffset;
+    use crate::component::datatype::SampleRateSpec;
+    use crate::component::datatype::SampleSizeSpec;
+    let mut frame = Frame::new_empty(
+        BlockSizeSpec::S192,
+        ChannelAssignment::Independent(2),
+        SampleSizeSpec::B16,
+        SampleRateSpec::R44_1kHz,
+    );
+    let num: u32 = kani::any();
+    frame.header_mut().set_frame_offset(FrameOffset::Frame(num));
+    let hb = frame.header().count_bits();
+    assert!(frame.count_bits() == ((hb + 7) / 8) * 8 + 16);
+    let a: u8 = kani::any();
+    let b: u8 = kani::any();
+    frame.add_subframe(Constant::from_parts(192, 1, a).into());
+    assert!(frame.count_bits() == ((hb + 8 + a as usize + 7) / 8) * 8 + 16);
+    frame.add_subframe(Constant::from_parts(192, 2, b).into());
+    let total = hb + (8 + a as usize) + (8 + b as usize);
+    assert!(frame.count_bits() == ((total + 7) / 8) * 8 + 16);
+    assert!(frame.count_bits() % 8 == 0);
+    kani::cover!(total % 8 == 3);
+}
